@@ -426,7 +426,7 @@ func Run(tier, replay string) {
 	// (T): seeded random patterns and decimal inputs
 	nRand, nDec := 1500, 1500
 	if tier == "thorough" {
-		nRand, nDec = 30000, 15000
+		nRand, nDec = 100000, 40000
 	}
 	c.judge(randomPatterns(rng, nRand), "random-patterns")
 	c.judge(decimalInputs(rng, nDec), "decimal-inputs")
